@@ -447,6 +447,17 @@ class Ctx:
         t0 = time.time()
         res, model = solve(fs, self, timeout_ms or self.timeout_ms, links=links, feasibility=feasibility)
         self.stats.queries += 1
+        if res == "unknown" and timeout_ms is None and not self.notes.get("no_retry"):
+            # one more attempt with three times the budget and another solver seed: a
+            # loaded machine must not turn a decidable query into an inconclusive run
+            old_seed = self.seed
+            self.seed = old_seed + 7919
+            try:
+                res, model = solve(fs, self, 3 * self.timeout_ms, links=links, feasibility=feasibility)
+            finally:
+                self.seed = old_seed
+            self.stats.queries += 1
+            self.stats.retried = getattr(self.stats, "retried", 0) + 1
         self.stats.solver_time += time.time() - t0
         if res == "unknown":
             self.stats.unknown += 1
